@@ -1447,3 +1447,344 @@ class FA:
         if b not in self.live:
             return True
         return self.path([0], [b], cut_edges=frozenset([edge]), incl=True) is None
+
+
+
+# ------------------------------------------------------------------------------------------------
+# field-sensitive direct value flow (appended; used by the builder rules)
+
+class FieldTaint:
+    """taint(mode='direct') with *access paths* instead of whole locals: which places hold (a direct alias of) the
+    seeded value, when values travel inside struct / tuple / enum-payload fields of locals.
+
+    taint() keys on the base local, so a struct local built from several values (`Recorder { t, tmp_name, rv }`, a
+    parameter bundle, a tuple returned by a helper) mixes them: every field read afterwards carries every source.
+    Here the unit is (base, field path): an aggregate statement taints only the field its operand is stored in, a
+    read of `s.f` (also through `&s` / `&mut s` temporaries, e.g. the `self` of a spliced method) sees only what was
+    stored in `f`, a whole-struct move carries the paths along, a write `s.f = x` / `(*self).f = x` taints only `f`.
+    References are transparent (a borrow of a place is that place), as in taint(). Locals with a single definition
+    that is a plain use / borrow / cast of a place are substituted by that place (copy propagation); everything
+    else propagates to a fixed point, flow-insensitively. Identity-preserving calls (IDENTITY_CALLS, `through`)
+    whose argument touches a tainted path taint their result (and the referents of their `&mut` arguments) as a
+    whole, like taint(). Never less precise than taint(mode='direct'); a subset of its result.
+
+    seeds: locals tainted as a whole (negative numbers = closure upvars, see place_key);
+    seed_paths: (local or upvar key, ('Type.field', ..)) pairs; src_place(place) as in taint().
+    `.T` is the set of tainted (key, path); see whole_locals(), touching()."""
+
+    def __init__(self, body, seeds=(), seed_paths=(), src_place=None, through=None):
+        self.b = body
+        self.ba = BA.of(body)
+        self.src_place = src_place
+        self.through = through
+        self._alias = {}
+        self.T = set()
+        for l in seeds:
+            self.T.add(self.norm({"l": l, "p": []}) if l >= 0 else (l, ()))
+        for (l, path) in seed_paths:
+            k, pre = self.norm({"l": l, "p": []}) if l >= 0 else (l, ())
+            self.T.add((k, pre + tuple(path)))
+        if src_place is not None:
+            # source places are seeded by their normalised path once, so that a copy-propagated local standing for
+            # one (`t = move self.t`) is recognised wherever it is read
+            for blk in body.blocks:
+                ps = []
+                for s in blk["stmts"]:
+                    if s["s"] == "assign":
+                        ps.extend(rvalue_places(s["rv"]))
+                t = blk["term"]
+                if t["t"] == "call":
+                    ps.extend(x for x in (op_place(a) for a in t["args"]) if x is not None)
+                elif t["t"] == "switch":
+                    ps.extend(x for x in [op_place(t["discr"])] if x is not None)
+                for p_ in ps:
+                    if src_place(p_):
+                        self.T.add(self.norm(p_))
+        self._run()
+
+    # ---- places -----------------------------------------------------------------------------
+    @staticmethod
+    def split(p):
+        """(key, [field names]) of a raw place: upvars are keys of their own; deref / downcast are transparent;
+        an index / subslice projection ends the path (the element is taken for the container)."""
+        key = p["l"]
+        elems = list(p["p"])
+        path = []
+        if p["l"] == 1:
+            for n_, e in enumerate(elems):
+                if e == "deref":
+                    continue
+                if e.startswith("f:upvar."):
+                    key = -(1000 + int(e[2:].split(".", 2)[1]))
+                    elems = elems[n_ + 1:]
+                break
+        for e in elems:
+            if e == "deref" or e.startswith("as:"):
+                continue
+            if e.startswith("f:"):
+                path.append(e[2:])
+                continue
+            break
+        return key, path
+
+    def alias_of(self, l, depth=0):
+        """The (key, path) a single-definition copy / borrow local stands for, else None."""
+        if l in self._alias:
+            return self._alias[l]
+        self._alias[l] = None
+        if l < 0 or depth > 24 or (1 <= l <= self.b.arg_count):
+            return None
+        ds = [d for d in self.ba.defs.get(l, []) if d[0] in ("stmt", "call", "yield")]   # (writes *through* it do not redefine it)
+        if len(ds) != 1 or ds[0][0] != "stmt":
+            return None
+        rv = ds[0][3]
+        if rv["k"] in ("use", "cast"):
+            p = op_place(rv["op"])
+        elif rv["k"] in ("ref", "rawptr"):
+            p = rv["place"]
+        else:
+            p = None
+        if p is None:
+            return None
+        r = self.norm(p, depth + 1)
+        self._alias[l] = r
+        return r
+
+    def norm(self, p, depth=0):
+        key, path = self.split(p)
+        if key >= 0:
+            a = self.alias_of(key, depth)
+            if a is not None:
+                return a[0], a[1] + tuple(path)
+        return key, tuple(path)
+
+    # ---- queries ----------------------------------------------------------------------------
+    def touching(self, np_):
+        """Tainted paths related to the normalised place np_: (whole, [suffixes]) - `whole` when np_ lies inside a
+        tainted path (its whole value is the tracked value or part of it), suffixes: tainted paths strictly below."""
+        k, p = np_
+        whole = False
+        suff = []
+        for (tk, tp) in self.T:
+            if tk != k:
+                continue
+            if len(tp) <= len(p) and p[:len(tp)] == tp:
+                whole = True
+            elif len(tp) > len(p) and tp[:len(p)] == p:
+                suff.append(tp[len(p):])
+        return whole, suff
+
+    def place_paths(self, p):
+        """Field paths below raw place `p` that hold the tracked value: [()] when p itself does, else the suffixes."""
+        if p is None:
+            return []
+        whole, suff = self.touching(self.norm(p))
+        return [()] if whole else sorted(set(suff))
+
+    def operand_paths(self, o):
+        return self.place_paths(op_place(o))
+
+    def whole_locals(self):
+        out = set()
+        for l in range(len(self.b.locals)):
+            if self.touching(self.norm({"l": l, "p": []}))[0]:
+                out.add(l)
+        for (k, p) in self.T:
+            if k < 0 and not p:
+                out.add(k)
+        return out
+
+    # ---- propagation ------------------------------------------------------------------------
+    def _transfer(self, src, dst):
+        ch = False
+        for s_ in self.place_paths(src):
+            d2 = (dst[0], dst[1] + tuple(s_))
+            if d2 not in self.T:
+                self.T.add(d2)
+                ch = True
+        return ch
+
+    @staticmethod
+    def agg_field_names(rv):
+        if rv.get("agg") == "adt":
+            adt, var = rv.get("adt", "?"), rv.get("variant")
+            pre = adt if (var is None or adt.rsplit("::", 1)[-1] == var) else "%s::%s" % (adt, var)
+            fs = rv.get("fields") or []
+            return ["%s.%s" % (pre, f) for f in fs] if len(fs) == len(rv["ops"]) else None
+        if rv.get("agg") == "tuple":
+            return ["tuple.%d" % i for i in range(len(rv["ops"]))]
+        return None
+
+    _OKSOME = ("core::option::Option::Some.0", "core::result::Result::Ok.0")
+    _UNWRAP = re.compile(r"(.*::)?(unwrap|expect|unwrap_or|unwrap_or_default|unwrap_unchecked)")
+    _BRANCH = re.compile(r"(<.* as )?core::ops::try_trait::Try>?::branch")
+    _SAME_SHAPE = re.compile(r"(.*::)?(clone|to_owned|borrow|borrow_mut|as_ref|as_mut|deref|deref_mut|cloned|copied|map_err|as_deref|as_deref_mut)")
+
+    def _through_call(self, t, suffix):
+        """Where, inside the result of identity-preserving call `t`, does a value sit that sits at field path
+        `suffix` inside an argument: [path, ..]. () = the result as a whole. The wrappers that every `?` / unwrap
+        goes through are followed exactly (Ok(x)/Some(x) -> Continue(x); unwrap -> x; clone / as_ref / map_err keep
+        the shape); any other identity call whose argument merely *contains* the value taints its whole result."""
+        if not suffix:
+            return [()]
+        ps = callee_paths(t)
+        if any(self._BRANCH.fullmatch(p) for p in ps):
+            if suffix[0] in self._OKSOME:
+                return [("core::ops::control_flow::ControlFlow::Continue.0",) + suffix[1:]]
+            return [("core::ops::control_flow::ControlFlow::Break.0",)]
+        if any(self._UNWRAP.fullmatch(p) for p in ps):
+            return [suffix[1:]] if suffix[0] in self._OKSOME else []
+        if any(self._SAME_SHAPE.fullmatch(p) for p in ps):
+            return [suffix]
+        return [()]
+
+    def _run(self):
+        body = self.b
+        changed = True
+        rounds = 0
+        while changed and rounds < 60:
+            changed = False
+            rounds += 1
+            for i, blk in enumerate(body.blocks):
+                for s in blk["stmts"]:
+                    if s["s"] != "assign":
+                        continue
+                    d = s["place"]
+                    if not d["p"] and self.alias_of(d["l"]) is not None:
+                        continue            # substituted
+                    dst = self.norm(d)
+                    rv = s["rv"]
+                    k = rv["k"]
+                    if k in ("use", "cast", "repeat"):
+                        changed |= self._transfer(op_place(rv["op"]), dst)
+                    elif k in ("ref", "rawptr"):
+                        changed |= self._transfer(rv["place"], dst)
+                    elif k == "agg":
+                        names = self.agg_field_names(rv)
+                        for n_, o in enumerate(rv["ops"]):
+                            sub = dst if names is None else (dst[0], dst[1] + (names[n_],))
+                            changed |= self._transfer(op_place(o), sub)
+                t = blk["term"]
+                if t["t"] == "call":
+                    idc = any(IDENTITY_CALLS.fullmatch(p) or (self.through is not None and self.through.fullmatch(p)) for p in callee_paths(t))
+                    if idc and any(self.operand_paths(a) for a in t["args"]):
+                        dst = self.norm(t["dest"])
+                        for a in t["args"]:
+                            for s_ in self.operand_paths(a):
+                                for d_ in self._through_call(t, tuple(s_)):
+                                    d2 = (dst[0], dst[1] + d_)
+                                    if d2 not in self.T:
+                                        self.T.add(d2)
+                                        changed = True
+                        for a, aty in zip(t["args"], t.get("arg_tys", [])):
+                            if OPAQUE_CARRIERS.fullmatch(aty):
+                                continue
+                            if aty.startswith("&mut ") or aty.startswith("core::pin::Pin<&mut"):
+                                p = op_place(a)
+                                if p is None:
+                                    continue
+                                dd = self.norm(p)
+                                if dd not in self.T:
+                                    self.T.add(dd)
+                                    changed = True
+
+
+def ftaint(body, seeds=(), seed_paths=(), src_place=None, through=None):
+    """Locals (negative numbers = closure upvars) whose whole value is a direct alias of the seeded value, computed
+    field-sensitively (FieldTaint). Drop-in for taint(mode='direct') where struct locals must not mix their fields."""
+    return FieldTaint(body, seeds=seeds, seed_paths=seed_paths, src_place=src_place, through=through).whole_locals()
+
+
+class FAL(FA):
+    """FA with the environment restricted, at every block entry, to the tracked locals that are *live* there (read
+    on some path before being overwritten). A dead local's remembered variant can never decide a later switch, so
+    the feasible paths are exactly FA's; but states that differ only in dead values collapse, and the search stays
+    far below STATE_CAP on the large builder bodies (start_self, record_new_state, the scheduler), where FA itself
+    runs into the cap and silently falls back to plain block reachability."""
+
+    _cache = {}
+
+    def __init__(self, body):
+        FA.__init__(self, body)
+        self._live_in = self._liveness()
+
+    def _liveness(self):
+        b = self.b
+        tr = self.tracked
+        n = len(b.blocks)
+        use = [set() for _ in range(n)]
+        dfn = [set() for _ in range(n)]
+
+        def rd(i, l):
+            if l in tr and l not in dfn[i]:
+                use[i].add(l)
+
+        for i, blk in enumerate(b.blocks):
+            for s in blk["stmts"]:
+                if s["s"] != "assign":
+                    rd(i, s["place"]["l"])
+                    continue
+                for p in rvalue_places(s["rv"]):
+                    rd(i, p["l"])
+                    for e in p["p"]:
+                        if e.startswith("index:"):
+                            rd(i, int(e[6:]))
+                d = s["place"]
+                if d["p"]:
+                    rd(i, d["l"])
+                elif d["l"] in tr:
+                    dfn[i].add(d["l"])
+            t = blk["term"]
+            k = t["t"]
+            if k == "call":
+                for a in t["args"]:
+                    p = op_place(a)
+                    if p is not None:
+                        rd(i, p["l"])
+                d = t["dest"]
+                if d["p"]:
+                    rd(i, d["l"])
+                elif d["l"] in tr:
+                    dfn[i].add(d["l"])
+            elif k == "switch":
+                p = op_place(t["discr"])
+                if p is not None:
+                    rd(i, p["l"])
+                    v = None
+            elif k == "yield":
+                p = op_place(t.get("value"))
+                if p is not None:
+                    rd(i, p["l"])
+                ra = t.get("resume_arg")
+                if ra is not None and not ra["p"] and ra["l"] in tr:
+                    dfn[i].add(ra["l"])
+            elif k == "assert":
+                p = op_place(t.get("cond"))
+                if p is not None:
+                    rd(i, p["l"])
+            elif k == "return":
+                rd(i, 0)
+        # a local whose discriminant is held by another local (`d = discriminant(x); switch d` fixes x's variant):
+        # x's known variant is consulted when d is read, so reading d keeps nothing more alive; nothing to add.
+        live_in = [set() for _ in range(n)]
+        live_out = [set() for _ in range(n)]
+        changed = True
+        order = list(range(n - 1, -1, -1))
+        while changed:
+            changed = False
+            for i in order:
+                out = set()
+                for s_ in b.succ(i):
+                    out |= live_in[s_]
+                li = use[i] | (out - dfn[i])
+                if out != live_out[i] or li != live_in[i]:
+                    live_out[i], live_in[i] = out, li
+                    changed = True
+        return {i: frozenset(live_in[i]) for i in range(n)}
+
+    def _step(self, bb, envt):
+        res = []
+        for (x, e) in FA._step(self, bb, envt):
+            li = self._live_in.get(x, frozenset())
+            res.append((x, tuple(kv for kv in e if kv[0] in li or (kv[1][0] == "discof" and kv[1][1] in li))))
+        return res
